@@ -2,7 +2,7 @@ package canonx
 
 import "sort"
 
-// This file is a Go transcription of the Coq model coq/Canon/Model.v (refinement of ordered
+// This file is a Go transcription of the Coq model coq/Canon/Model.v (no shortcut for edgeless graphs) (refinement of ordered
 // partitions and the unpruned individualise-refine search tree).  The harness uses it only to
 // *measure the size of the model's search tree* (so that the generator can mark the cases on
 // which the extracted model is affordable) and, in the tests of this package, to cross-check
@@ -101,12 +101,6 @@ func RefCanon(g *G, cls [][]int, budget int) (perm []int, leaves int, ok bool) {
 		return []int{}, 0, true
 	}
 	cells := refInit(n, cls)
-	if g.M() == 0 {
-		for _, c := range cells {
-			perm = append(perm, c.vs...)
-		}
-		return perm, 0, true
-	}
 	cells = refRefine(g, cells)
 	var best []int
 	var bestKey string
